@@ -65,7 +65,7 @@ def main():
         "engines": [{"name": "folo-verif", "path": "/verif/bin/check", "serves_properties": sorted(CLAIMS), "kind_free_text": "contract-based deductive verification driver: Kani 0.68 function-contract harnesses on the real crates + Verus 0.2026.09.13 on mechanically extracted function bodies / regions"}],
         "checks": checks,
         "not_applicable": na,
-        "notes": "exit 0 = all obligations discharged; 1 = VIOLATION (a contract obligation fails on /repo's source); 2 = undecided (tool limit / lost anchor / timeout) - never an alarm. See DESIGN.md.",
+        "notes": "exit 0 = all obligations discharged, or the only failed checks are listed as `finding:` in /verif/known_findings.txt (each prints a KNOWN-FINDING line; currently 4 lines, all C04: managed handles run destructors under the pool guard); 1 = VIOLATION (a contract obligation fails on /repo's source and is not a listed finding); 2 = undecided (tool limit / lost anchor / timeout) - never an alarm. `fixed:` lines in known_findings.txt (C04, C09, C11 repaired by fix: commits in /repo) suppress nothing. Seeded property-breaking changes with their outcomes: /verif/seeded/README.md. See DESIGN.md.",
     }
     json.dump(man, open(os.path.join(ROOT, "MANIFEST.json"), "w"), indent=1)
 
